@@ -1,8 +1,82 @@
 (* reads the same case lines as harness/c19.c and prints the same result lines *)
 open X_c19
 let bits_str bs = String.concat "" (List.map (fun b -> if b then "1" else "0") bs)
+(* ---- symbol statistics (model/HuffSym.v), same protocol as harness/c19sym*.c ---- *)
+exception Guard
+let parse_group g =
+  match words g with
+  | w :: rest when String.length w > 0 && w.[0] = '*' ->
+      (int_of_string (String.sub w 1 (String.length w - 1)), List.map int_of_string rest)
+  | ws -> (1, List.map int_of_string ws)
+let groups line cmd =
+  let body = String.sub line (String.length cmd) (String.length line - String.length cmd) in
+  List.filter (fun (_, l) -> l <> []) (List.map parse_group (String.split_on_char ';' body))
+let pr_counts syms =
+  let c = il (count_syms syms) in
+  let b = Buffer.create 256 in
+  List.iteri (fun i x -> if x <> 0 then Buffer.add_string b (Printf.sprintf " %d:%d" i x)) c;
+  Buffer.contents b
+let rec sub_list l lo hi i = match l with
+  | [] -> [] | x :: t -> if i > hi then [] else if i >= lo then x :: sub_list t lo hi (i + 1) else sub_list t lo hi (i + 1)
+let do_hs line =
+  match groups line "hs" with
+  | (_, [prec]) :: blocks ->
+      (try
+        let dc = ref [] and ac = ref [] in
+        List.iter (fun (rep, l) ->
+          match l with
+          | ld :: zz when List.length zz = 64 ->
+              (match htest_one_block (z_of_int prec) (z_of_int ld) (zl zz) with
+               | None -> raise Guard
+               | Some (s, a) -> for _ = 1 to rep do dc := s :: !dc; ac := List.rev_append a !ac done)
+          | _ -> failwith "bad") blocks;
+        Printf.printf "hs dc%s | ac%s\n" (pr_counts !dc) (pr_counts !ac)
+      with Guard -> print_endline "hs err" | Failure _ -> print_endline "?")
+  | _ -> print_endline "?"
+let do_hp line =
+  match groups line "hp" with
+  | (_, [prec; ss; se; ah; al; ri]) :: blocks ->
+      (try
+        let st = ref pstate0 and ld = ref Z0 and idx = ref 0 and syms = ref [] in
+        let add l = syms := List.rev_append l !syms in
+        List.iter (fun (rep, zz) ->
+          if List.length zz <> 64 then failwith "bad";
+          let zzz = zl zz in
+          let band = sub_list zzz ss se 0 in
+          for _ = 1 to rep do
+            if ri > 0 && !idx > 0 && !idx mod ri = 0 then begin
+              (match emit_eobrun !st with None -> raise Guard | Some (l, _) -> add l);
+              st := pstate0; ld := Z0
+            end;
+            (if ss = 0 then begin
+               if ah = 0 then
+                 match dc_first_symbol (z_of_int prec) (z_of_int al) (List.hd zzz) !ld with
+                 | None -> raise Guard
+                 | Some (s, l') -> add [s]; ld := l'
+             end else begin
+               let r = if ah = 0 then ac_first_mcu (z_of_int prec) (z_of_int al) !st band
+                       else ac_refine_mcu (z_of_int al) !st band in
+               match r with None -> raise Guard | Some (l, st') -> add l; st := st'
+             end);
+            incr idx
+          done) blocks;
+        let e = int_of_z (!st).eobrun and b = int_of_z (!st).be in
+        (match emit_eobrun !st with None -> raise Guard | Some (l, _) -> add l);
+        Printf.printf "hp eobrun %d be %d |%s\n" e b (pr_counts !syms)
+      with Guard -> print_endline "hp err" | Failure _ -> print_endline "?")
+  | _ -> print_endline "?"
+let do_hl line =
+  let ds = List.map int_of_string (List.tl (words line)) in
+  (try
+    let syms = List.map (fun d -> match lossless_symbol (z_of_int d) with None -> raise Guard | Some s -> s) ds in
+    Printf.printf "hl%s\n" (pr_counts syms)
+  with Guard -> print_endline "hl err")
+
 let () = iter_lines (fun line ->
   match words line with
+  | "hs" :: _ -> do_hs line
+  | "hp" :: _ -> do_hp line
+  | "hl" :: _ -> do_hl line
   | "gen" :: rest ->
       let f = zl (List.map int_of_string rest) in
       (match gen_optimal_table f with
